@@ -228,8 +228,10 @@ func (g *Gen) Step() bool {
 			choice{g.wt("close"), func() { g.opClose(conns) }},
 			choice{g.wt("token"), func() { g.opToken(conns) }},
 			choice{g.wt("burst"), func() { g.opBurst(conns) }},
+			choice{g.wt("limitburst"), func() { g.opLimitBurst(conns) }},
 			choice{g.wt("badreq"), func() { g.opBadReq(conns) }},
 			choice{g.wt("trigburst"), func() { g.opTrigBurst(conns) }},
+			choice{g.wt("refburst"), func() { g.opRefBurst(conns) }},
 			choice{g.wt("hostilereq"), func() { g.opHostileReq(conns) }},
 		)
 	}
@@ -430,6 +432,26 @@ func (g *Gen) opBurst(conns []*Client) {
 	n := rapid.IntRange(2, max).Draw(g.t, "burstn")
 	for i := 0; i < n; i++ {
 		g.w.Exec(Op{K: "creq", C: c.Idx, ID: g.nextID(c), M: "subscribe." + rid})
+	}
+}
+
+// opLimitBurst brings the direct subscription count of one resource to (or
+// just below) the per-resource limit of 256 and then asks for a few more, by
+// subscribe, get, or a call that may be answered with a resource response.
+func (g *Gen) opLimitBurst(conns []*Client) {
+	c := g.conn(conns)
+	rid := g.sample("rid", g.rids)
+	n := 256 - c.Ref.Direct[rid] - rapid.IntRange(0, 2).Draw(g.t, "lbshort")
+	if n > 1 {
+		id := g.nextID(c)
+		g.w.Exec(Op{K: "creq", C: c.Idx, ID: id, M: "subscribe." + rid, N: n})
+	} else if n == 1 {
+		g.w.Exec(Op{K: "creq", C: c.Idx, ID: g.nextID(c), M: "subscribe." + rid})
+	}
+	extra := rapid.IntRange(1, 4).Draw(g.t, "lbextra")
+	for i := 0; i < extra; i++ {
+		m := g.sample("lbaction", []string{"subscribe.", "subscribe.", "get."}) + rid
+		g.w.Exec(Op{K: "creq", C: c.Idx, ID: g.nextID(c), M: m})
 	}
 }
 
@@ -747,6 +769,78 @@ func (g *Gen) opTrigBurst(conns []*Client) {
 	if g.wt("call") > 0 && rapid.Bool().Draw(g.t, "callafter") {
 		// a call right after the trigger must not be decided on the cached verdict
 		g.w.Exec(Op{K: "creq", C: c.Idx, ID: g.nextID(c), M: "call." + rid + "." + g.sample("method", g.methods())})
+	}
+}
+
+// opRefBurst aims at the subscription state machine: a resource the client
+// holds gets an event that adds a reference to a target which is, on the same
+// connection, unknown, loading, loaded but not yet sent, or already held; more
+// events for the holder follow while the target is still in that state.
+func (g *Gen) opRefBurst(conns []*Client) {
+	c := g.conn(conns)
+	var holders []string
+	for rid, n := range c.Ref.Direct {
+		if n > 0 && !strings.Contains(rid, "?") && !strings.Contains(rid, "{cid}") {
+			if d := g.w.Svc.def(rid); d != nil && d.QueryMap == nil {
+				holders = append(holders, rid)
+			}
+		}
+	}
+	if len(holders) == 0 || len(g.names) == 0 {
+		return
+	}
+	sort.Strings(holders)
+	holder := g.sample("rbholder", holders)
+	target := g.sample("rbtarget", g.names)
+	answer := func(subject string) {
+		for _, pv := range g.w.PendingSorted() {
+			if pv.P.Subject == subject && (pv.Actor == c.Idx || pv.Actor < 0) {
+				op := Op{K: "ans", S: pv.P.Subject, Q: pv.P.Query, A: actorEnc(pv.Actor), N: pv.Ord, O: "ok"}
+				if strings.HasPrefix(subject, "access.") {
+					op.P = `{"get":true,"call":"*"}`
+				}
+				g.w.Exec(op)
+				return
+			}
+		}
+	}
+	switch rapid.IntRange(0, 4).Draw(g.t, "rbstate") {
+	case 0: // as it is
+	case 1: // loading: get and access outstanding
+		g.w.Exec(Op{K: "creq", C: c.Idx, ID: g.nextID(c), M: "subscribe." + target})
+	case 2: // loaded, not sent: access outstanding
+		g.w.Exec(Op{K: "creq", C: c.Idx, ID: g.nextID(c), M: "subscribe." + target})
+		answer("get." + target)
+	case 3: // access granted, data outstanding
+		g.w.Exec(Op{K: "creq", C: c.Idx, ID: g.nextID(c), M: "subscribe." + target})
+		answer("access." + target)
+	case 4: // cached for another connection only
+		if len(conns) > 1 {
+			o := g.conn(conns)
+			if o != c {
+				g.w.Exec(Op{K: "creq", C: o.Idx, ID: g.nextID(o), M: "subscribe." + target})
+				answer("get." + target)
+			}
+		}
+	}
+	d := g.w.Svc.def(holder)
+	v := g.w.Svc.variant(d, holder, "")
+	ref := Ref(target)
+	if rapid.IntRange(0, 5).Draw(g.t, "rbsoft") == 0 {
+		ref = Soft(target)
+	}
+	if v.Type == 'm' {
+		g.w.Exec(Op{K: "mut", S: holder, O: "set", Key: g.sample("key", []string{"a", "r", "s"}), Val: &ref})
+	} else {
+		g.w.Exec(Op{K: "mut", S: holder, O: "add", N: rapid.IntRange(0, len(v.Coll)).Draw(g.t, "idx"), Val: &ref})
+	}
+	n := rapid.IntRange(1, 3).Draw(g.t, "rbnev")
+	for i := 0; i < n; i++ {
+		if rapid.Bool().Draw(g.t, "rbmut") {
+			g.mutate("mut", holder, "")
+		} else {
+			g.w.Exec(Op{K: "custom", S: holder, M: "custom"})
+		}
 	}
 }
 
